@@ -96,6 +96,10 @@ def _json_values():
         out.append({"openapi": a, "info": b, "paths": c})
     for sw in ("2.0", None, {}):
         out.append({"swagger": sw, "info": {"title": "t", "version": "1"}, "paths": {}})
+    # version strings of every shape, in an otherwise valid document
+    for ver in ("3", "3.", "3.0", "3.1", ".1.0", "3..0", "3.x.0", "3.1.x", "3.2.0", "3.10.0", "03.1.0", "3.1.0.0", "3.1.0-rc1", "v3.1.0", " 3.1.0", "3.1.0 ", "4", "2", "1.0.0", "-3.1.0", "3,1,0", "３.１.０",
+                3, 3.0, True, [3, 1, 0], {"major": 3}, "9" * 400, "3." + "1" * 400 + ".0"):
+        out.append({"openapi": ver, "info": {"title": "t", "version": "1"}, "paths": {}})
     seen, res = set(), []
     for v in out:
         k = json.dumps(v, sort_keys=True)
@@ -216,7 +220,21 @@ NATIVE_SLOTS = {
 }
 
 
+YAML_ALIAS_DOCS = {
+    "schema-self-alias": "components:\n  schemas:\n    Node: &node\n      type: object\n      properties:\n        child: *node\n",
+    "oneof-self-alias": "components:\n  schemas:\n    U:\n      oneOf: &alts\n        - type: string\n        - oneOf: *alts\n",
+    "mutual-alias": "components:\n  schemas:\n    A: &a\n      type: object\n      properties:\n        b: &b\n          type: object\n          properties:\n            a: *a\n    B: *b\n",
+    "info-self-alias": "x-loop: &l\n  again: *l\n",
+    "paths-alias-cycle": "paths:\n  /x: &p\n    get:\n      responses:\n        '200':\n          description: d\n      x-item: *p\n",
+    "alias-reuse-no-cycle": "components:\n  schemas:\n    S: &s {type: string}\n    M: {type: object, properties: {a: *s, b: *s}}\n",
+    "deep-nesting": "components:\n  schemas:\n    D: " + "{allOf: [" * 60 + "{type: object}" + "]}" * 60 + "\n",
+    "billion-laughs-small": "x-a: &a [x, x]\nx-b: &b [*a, *a]\nx-c: &c [*b, *b]\nx-d: &d [*c, *c]\nx-e: [*d, *d]\n",
+}
+
+
 def _yaml_native_docs():
+    for name, body in YAML_ALIAS_DOCS.items():
+        yield f"aliases/{name}", "openapi: 3.1.0\ninfo: {title: t, version: '1'}\n" + ("paths: {}\n" if not body.startswith("paths") else "") + body
     for sname, tmpl in NATIVE_SLOTS.items():
         for vname, v in NATIVE.items():
             body = tmpl.replace("@V@", v).replace("@O@", "{k: " + v + ", n: 1}").replace("@A@", "[" + v + ", x]")
